@@ -194,6 +194,31 @@ def _guarded_by_service_test(ctx: Ctx, g: Any, org: Any) -> bool:
     return hits > 0
 
 
+def _service_never_nested(ctx: Ctx) -> bool:
+    """a service type cannot be the type of a field, a padding, a constant, an array element or the inner type of a delimited
+    type: each constructor, evaluated over a constructed service type, refuses it (the facts C13 decides) - so inside the codec
+    the only service type that can be met is the schema the caller passed, which the entry guard rejects first"""
+    hit = getattr(ctx, "_svc_never_nested", None)
+    if hit is None:
+        from . import c05 as M
+        from .c13 import service_facts
+
+        try:
+            facts = service_facts(ctx)
+            nested = [f for f in facts if f[1].endswith(".__init__")]
+            hit = len(nested) >= 5 and all(f[0] for f in nested)
+            if hit:
+                rq = M.structure(ctx, name="ns.S.Request", half=True)
+                rs = M.structure(ctx, name="ns.S.Response", half=True)
+                svc = M.build_model(ctx, "_serializable._composite.ServiceType", request=rq, response=rs, fixed_port_id=None)
+                dl = M.build_model(ctx, "_serializable._composite.DelimitedType", inner=svc, extent=64) if not isinstance(svc, str) else "?"
+                hit = isinstance(dl, str)  # construction fails, whatever the class of the error
+        except AnalysisError:
+            hit = False
+        ctx._svc_never_nested = hit  # type: ignore
+    return bool(hit)
+
+
 def rule_r1(ctx: Ctx) -> None:
     repo = ctx.repo
     ctx.rule("C07.R1", "exceptions escaping deserialize are SerDesError/ValueError subclasses (TypeError only from the explicit ServiceType guards); implicit partial operations in the codec are discharged", min_instances=4)
@@ -229,6 +254,8 @@ def rule_r1(ctx: Ctx) -> None:
             ok = True
         elif cls == "ext:TypeError" and org.kind == "raise" and _guarded_by_service_test(ctx, g, org):
             ok = True
+        elif cls == "ext:TypeError" and org.kind == "raise" and getattr(g.funcs.get(org.func), "cls", None) is not None and g.funcs[org.func].cls.name == "ServiceType" and _service_never_nested(ctx):
+            ok = True  # raised by a method of the service type itself: its receiver can only be the schema passed in, rejected at entry
         elif cls in ("ext:MemoryError", "ext:RecursionError"):
             ok = True
         ctx.count()
